@@ -342,3 +342,89 @@ Proof.
   - intros c g1 g2 [H1|[]] [H2|[]]. congruence.
   - vm_compute. reflexivity.
 Qed.
+
+(* ---------- skrifa Charmap over the emitted records ---------- *)
+
+Lemma assoc_valid_nonzero input c g : valid_input input -> assoc c (canon input) = Some g -> (g =? 0) = false.
+Proof.
+  intros HV E. apply assoc_in in E. apply (proj1 (canon_in _ _)) in E.
+  unfold valid_input in HV. rewrite Forall_forall in HV. destruct (HV _ E) as [_ Hg]. cbn in Hg.
+  apply Z.eqb_neq. lia.
+Qed.
+
+Lemma assoc_none_of_no_subtable input o4 o12 c : valid_input input -> from_mappings input = Built o4 o12 ->
+  (c <= 65535 -> o4 = None) -> (65535 < c -> o12 = None) -> assoc c (canon input) = None.
+Proof.
+  intros HV HB H4 H12. destruct (assoc c (canon input)) as [g|] eqn:E; [|reflexivity]. exfalso.
+  apply assoc_in in E. apply (proj1 (canon_in _ _)) in E.
+  destruct (subtable_choice_lemma _ _ _ HV HB) as [S12 S4].
+  destruct (Z.le_gt_cases c 65535) as [Hle|Hgt].
+  - apply (proj2 S4); [exists (c, g); auto | auto].
+  - apply (proj2 S12); [exists (c, g); auto | auto].
+Qed.
+
+Theorem charmap_map_answers_lemma input o4 o12 : valid_input input -> from_mappings input = Built o4 o12 ->
+  forall c, 0 <= c -> c <> 65535 -> charmap_map (records_of o4 o12) c = assoc c (canon input).
+Proof.
+  intros HV HB c Hc Hns. destruct o12 as [gs|].
+  - assert (Hsel : charmap_select (records_of o4 (Some gs)) = (2, Some (F12 gs))) by (destruct o4; reflexivity).
+    unfold charmap_map. rewrite Hsel. unfold subtable_map.
+    rewrite (cmap12_answers_assoc _ _ _ HV HB c Hc).
+    destruct (assoc c (canon input)) as [g|] eqn:E; [|reflexivity].
+    rewrite (assoc_valid_nonzero _ _ _ HV E). reflexivity.
+  - destruct o4 as [t|].
+    + assert (Hsel : charmap_select (records_of (Some t) None) = (1, Some (F4 t))) by reflexivity.
+      unfold charmap_map. rewrite Hsel. unfold subtable_map.
+      destruct (Z.le_gt_cases c 65535) as [Hle|Hgt].
+      * rewrite (cmap4_answers_assoc_lemma _ _ _ HV HB c) by lia.
+        destruct (assoc c (canon input)) as [g|] eqn:E; [|reflexivity].
+        rewrite (assoc_valid_nonzero _ _ _ HV E). reflexivity.
+      * rewrite cmap4_map_above by lia. cbn.
+        symmetry. eapply assoc_none_of_no_subtable; eauto. lia.
+    + unfold charmap_map. cbn. symmetry. eapply assoc_none_of_no_subtable; eauto.
+Qed.
+
+
+Lemma cmap12_iter_from_limits gs ng : forall pe pg, gwf pe pg gs ->
+  (forall a, In a gs -> g_end a < 1114111 /\ g_gid a + (g_end a - g_start a) < ng) ->
+  forall cur_end, cur_end <= pe + 1 -> cmap12_iter_from (Some (1114111, ng)) cur_end gs = expand gs.
+Proof.
+  induction gs as [|[[s e] g] t IH]; intros pe pg H Hb cur_end Hce; [reflexivity|].
+  cbn [gwf] in H. unfold g_start, g_end, g_gid in H. cbn [fst snd] in H.
+  destruct H as (H1 & H2 & H3 & H4 & H5 & H6 & H7). unfold B32 in *.
+  destruct (Hb (s, e, g) (or_introl eq_refl)) as [Hb1 Hb2]. unfold g_start, g_end, g_gid in Hb1, Hb2. cbn [fst snd] in Hb1, Hb2.
+  cbn [cmap12_iter_from]. unfold cmap12_group_end.
+  destruct (Z.ltb_spec s cur_end); [lia|].
+  replace (Z.min (Z.max 0 (ng - g) + s) (Z.min (e + 1) 1114111)) with (e + 1) by lia.
+  change (expand ((s, e, g) :: t)) with (run s e g ++ expand t).
+  f_equal.
+  - unfold run. apply map_ext_in. intros x Hx. apply zrange_in in Hx.
+    unfold cmap12_lookup_glyph_id. rewrite (wrap32_id (x - s)) by lia. rewrite wrap32_id by lia. reflexivity.
+  - eapply IH; eauto. intros a Ha. apply Hb. right. exact Ha. lia.
+Qed.
+
+Lemma filter_all {A} (f : A -> bool) l : (forall x, In x l -> f x = true) -> filter f l = l.
+Proof.
+  induction l as [|a l IH]; intros H; [reflexivity|]. cbn. rewrite (H a (or_introl eq_refl)). f_equal.
+  apply IH. intros x Hx. apply H. right. exact Hx.
+Qed.
+
+(* Charmap::mappings when a format-12 subtable is selected: exactly the sorted input pairs,
+   PROVIDED no pair is for U+10FFFF (see the finding) and all glyph ids are below the glyph count *)
+Theorem charmap_mappings_exact_f12_lemma input o4 gs ng : valid_input input -> from_mappings input = Built o4 (Some gs) ->
+  (forall c g, In (c, g) input -> c < 1114111 /\ g < ng) ->
+  charmap_mappings (records_of o4 (Some gs)) ng = canon input.
+Proof.
+  intros HV HB Hlim. destruct (built_f12 _ _ _ HV HB) as (Ha & He & Hw).
+  assert (Hsel : charmap_select (records_of o4 (Some gs)) = (2, Some (F12 gs))) by (destruct o4; reflexivity).
+  unfold charmap_mappings. rewrite Hsel. unfold cmap12_iter.
+  rewrite (cmap12_iter_from_limits gs ng _ _ Hw); [| |lia].
+  - rewrite He. apply filter_all. intros [c g] Hin. apply (proj1 (canon_in _ _)) in Hin.
+    unfold valid_input in HV. rewrite Forall_forall in HV. destruct (HV _ Hin) as [_ Hg]. cbn in *.
+    apply negb_true_iff. apply Z.eqb_neq. lia.
+  - intros a Hin. destruct (gwf_nth _ _ _ Hw) as [Hn _].
+    destruct (In_nth_error _ _ Hin) as [i Hi]. destruct (Hn _ _ Hi) as (_ & Hse & _).
+    assert (Hl : In (g_end a, g_gid a + (g_end a - g_start a)) (expand gs)).
+    { apply in_expand. exists a. split; auto. split; [lia | reflexivity]. }
+    rewrite He in Hl. apply (proj1 (canon_in _ _)) in Hl. apply Hlim in Hl. exact Hl.
+Qed.
